@@ -341,6 +341,14 @@ def inputs(ctx, budget_mult=1):
     for i in range(n_frag):
         text, _rule = docgen.gen_fragment(rng)
         yield ('gen_fragment', text, lr.TARGETS)
+        if i % 3 == 0 and '\n' in text or text[:1] in ' \t':
+            # near-valid: the indentation of one line is removed / added.  Most of these are rejected; whatever the parser
+            # accepts must round-trip like any other accepted text (a builder that starts to accept more is judged on it)
+            lines = text.split('\n')
+            k = 0 if rng.random() < 0.6 else rng.randrange(len(lines))
+            stripped = lines[k].lstrip(' \t')
+            lines[k] = stripped if stripped != lines[k] and rng.random() < 0.7 else rng.choice(['  ', '    ', '\t']) + lines[k]
+            yield ('gen_fragment_reindented', '\n'.join(lines), lr.TARGETS)
     # (3) exhaustive line layouts
     for name, text in docgen.gen_layouts(ctx.scale(3, 5)):
         nl = len(name.split('/')[0]) if name else 0
